@@ -732,7 +732,13 @@ def shard(ctx):
         for _ in range(max(1, per_kind)):
             run_case(ctx, gen_case(rng, kind))
     keypool = ['a', 'a_b', 'a-b', 'a_b-c', '-', '_', '', 'x-y-z', 'x_y_z',
-               'a--b', '__', 'k1']
+               'a--b', '__', 'k1',
+               # keys that are no identifiers, before or after the change
+               '2nd_item', '2nd-item', '10_000', '1-2', 'a_b.c', 'a-b.c',
+               'a b_c', 'a b-c', '%_x', '@-x', '\u0663_x', '\u0663-x',
+               'gr\u00f6\u00dfe_1', 'gr\u00f6\u00dfe-1', '_lead', '-lead',
+               'trail_', 'trail-', 'true_', 'null-', 'class_def', 'def-x',
+               'a:b_c', 'a:b-c', '{x}_y', '{x}-y', '1.5_', '"q"_r']
     for _ in range(ctx.budget(800, 8000)):
         ks = rng.sample(keypool, rng.randint(0, 4))
         # keep keys unique also after either replacement
